@@ -44,6 +44,9 @@ def gen_cases(tier, seed):
             )
     for r in range(6 if tier == "quick" else 60):
         cases.append({"kind": "drawn", "deg_step": int(rng.choice(DIVISORS)), "alpha": float(10 ** rng.uniform(-3.5, math.log10(0.3))), "sub": int(rng.integers(1 << 31))})
+    # small, non-round alpha: several hundred thousand points are drawn
+    for r in range(3 if tier == "quick" else 30):
+        cases.append({"kind": "drawn", "deg_step": int(rng.choice([5, 10, 15, 30])), "alpha": float(rng.uniform(1.05e-4, 3.9e-4)), "sub": int(rng.integers(1 << 31)), "cost": 4})
     return cases
 
 
